@@ -21,7 +21,7 @@ META = {
     "stubs": ["astropy.units.Quantity -> symbolic quantity; conversion factors and equivalence from the real astropy at run time; RELERR mode: every conversion multiply carries a rounding error (1+d), |d| <= 2^-53; str()/parse an exact inverse pair"],
     "assumptions": ["standard model of floating-point arithmetic for the two conversion multiplies of the rad<->deg text round trip", "validators / serializers are executed as the plain functions pydantic registers (model.__pydantic_decorators__)"],
 }
-LEDGER = {"quick": 220, "thorough": 220}
+LEDGER = {"quick": 225, "thorough": 225}
 
 CANON = {"valid_distkm": u.km, "valid_anglerad": u.rad, "valid_aream2": u.m**2, "valid_freqMHz": u.MHz, "valid_powerdB": u.dB}
 ALT_UNITS = {
@@ -263,6 +263,111 @@ def jobs(tier, seed):
             ("mn", "job_month_names", {"tier": tier}), ("var", "job_variants", {"tier": tier})]
 
 
+DIM_FIELDS = [  # (model path, field, canonical unit, an alternative unit): the 15 dimensional fields of the property
+    ("Detector.InitialPos", "altitude", "km", "m"), ("Detector.InitialPos", "latitude", "rad", "deg"), ("Detector.InitialPos", "longitude", "rad", "deg"),
+    ("Detector.SunMoon", "sun_alt_cut", "rad", "deg"), ("Detector.SunMoon", "moon_alt_cut", "rad", "arcmin"), ("Detector.SunMoon", "moon_min_phase_angle_cut", "rad", "deg"),
+    ("Detector.Optical", "telescope_effective_area", "m2", "cm2"), ("Detector.Radio", "low_frequency", "MHz", "kHz"), ("Detector.Radio", "high_frequency", "MHz", "GHz"),
+    ("Detector.Radio", "gain", "dB", None), ("Simulation", "max_cherenkov_angle", "rad", "deg"), ("Simulation", "max_azimuth_angle", "rad", "deg"),
+    ("Simulation", "angle_from_limb", "rad", "deg"), ("Simulation.TargetOfOpportunity", "source_RA", "rad", "hourangle"), ("Simulation.TargetOfOpportunity", "source_DEC", "rad", "deg"),
+]
+VALIDATE_JOB = "public API (dispatch of the validators and the TOML layer)"
+
+
+def _leaves(obj, path="config"):
+    from pydantic import BaseModel
+
+    if isinstance(obj, BaseModel):
+        for k in type(obj).model_fields:
+            yield from _leaves(getattr(obj, k), f"{path}.{k}")
+    else:
+        yield path, obj
+
+
+def _api_probe(seed=0):
+    """What the symbolic jobs ASSUME about the layers they do not execute (pydantic-core's dispatch of the
+    validators to the 15 fields; tomli_w / tomllib and create_toml / config_from_toml handing the dumped
+    dictionary through unchanged), exercised on the real public API with every leaf non-default.
+    -> (number of probes, list of (obligation, detail))"""
+    import os
+    import tempfile
+    import warnings
+
+    import numpy as np
+    from astropy import units as au
+    from astropy.units import Quantity
+
+    from nuspacesim import config as cfgmod
+
+    U = {"km": au.km, "m": au.m, "rad": au.rad, "deg": au.deg, "arcmin": au.arcmin, "hourangle": au.hourangle, "m2": au.m**2, "cm2": au.cm**2, "MHz": au.MHz, "kHz": au.kHz, "GHz": au.GHz, "dB": au.dB}
+    rng = np.random.default_rng(seed)
+    bad, n = [], 0
+    warnings.simplefilter("ignore")
+    for mpath, field, canon, alt in DIM_FIELDS:
+        cls = cfgmod
+        for part in mpath.split("."):
+            cls = getattr(cls, part)
+        vals = [0.3, 3.5, 4.75, 0.01, 6.2] + [float(rng.uniform(0.05, 6.2)) for _ in range(3)]
+        for x in vals:
+            kw = {}
+            if field == "low_frequency":
+                kw = {"high_frequency": 1e9}
+            if field == "high_frequency":
+                kw = {"low_frequency": 1e-9}
+            for spelling, given, want in (("bare number", x, x), ("Quantity in the canonical unit", Quantity(x, U[canon]), x),
+                                          ("text in the canonical unit", str(Quantity(x, U[canon])), x)) + (
+                    (("Quantity in " + alt, Quantity(x, U[alt]), Quantity(x, U[alt]).to(U[canon]).value),
+                     ("text in " + alt, f"{x!r} {U[alt].to_string()}", Quantity(x, U[alt]).to(U[canon]).value)) if alt else ()):
+                n += 1
+                try:
+                    got = getattr(cls(**{field: given}, **kw), field)
+                except Exception as ex:  # noqa
+                    bad.append((f"{mpath}.{field}: {spelling} is stored with astropy's conversion to {canon}", f"{given!r} rejected: {type(ex).__name__}"))
+                    continue
+                if not (abs(got - want) <= 4 * np.finfo(float).eps * abs(want)):
+                    bad.append((f"{mpath}.{field}: {spelling} is stored with astropy's conversion to {canon}", f"{given!r} stored as {got!r}, astropy gives {want!r} {canon}"))
+    # TOML round trip, every leaf non-default, all six variants
+    Sim, Det = cfgmod.Simulation, cfgmod.Detector
+    k = 0
+    for sp in (lambda: Sim.MonoSpectrum(log_nu_energy=9.25), lambda: Sim.PowerSpectrum(index=2.5, lower_bound=7.25, upper_bound=10.5)):
+        for cl in (lambda: Sim.NoCloud(), lambda: Sim.MonoCloud(altitude=3.5), lambda: Sim.PressureMapCloud(month=9)):
+            for mode in ("Diffuse", "Target"):
+                k += 1
+                r = lambda a, b: float(rng.uniform(a, b))  # noqa
+                cfg = cfgmod.NssConfig(
+                    title=f"run {k} \"quoted\" back\\slash \u00e9\u03bd", 
+                    detector=Det(name=f"det-{k} '\u00fc'", initial_position=Det.InitialPos(altitude=r(1, 900), latitude=r(-1.5, 1.5), longitude=r(-3, 3)),
+                                 sun_moon=Det.SunMoon(sun_moon_cuts=bool(k % 2), sun_alt_cut=r(-0.5, 0), moon_alt_cut=r(-0.2, 0.1), moon_min_phase_angle_cut=r(1, 3)),
+                                 optical=Det.Optical(enable=bool(k % 3), telescope_effective_area=r(0.5, 9), quantum_efficiency=r(0.1, 0.9), photo_electron_threshold=r(2, 50)),
+                                 radio=Det.Radio(enable=bool((k + 1) % 3), low_frequency=r(20, 90), high_frequency=r(100, 900), snr_threshold=r(2, 9), nantennas=int(rng.integers(2, 30)), gain=r(1, 5))),
+                    simulation=Sim(mode=mode, thrown_events=int(rng.integers(2, 10**6)), max_cherenkov_angle=r(0.01, 0.2), max_azimuth_angle=r(0.1, 6), angle_from_limb=r(0.01, 0.3),
+                                   cherenkov_light_engine="Default", ionosphere=Sim.Ionosphere(enable=bool(k % 2), total_electron_content=r(1, 50), total_electron_error=r(0.01, 0.5)),
+                                   tau_shower=Sim.NuPyPropShower(etau_frac=r(0.1, 0.9), table_version="3"), target=Sim.TargetOfOpportunity(source_RA=r(0.1, 6), source_DEC=r(-1.5, 1.5), source_date="2023-01-0%dT00:00:00" % (1 + k % 9), source_date_format="isot", source_obst=r(100, 1e5)),
+                                   spectrum=sp(), cloud_model=cl()))
+                n += 1
+                with tempfile.TemporaryDirectory() as d:
+                    pth = os.path.join(d, "c.toml")
+                    try:
+                        cfgmod.create_toml(pth, cfg)
+                        back = cfgmod.config_from_toml(pth)
+                    except Exception as ex:  # noqa
+                        bad.append(("TOML round trip: create_toml -> config_from_toml returns the configuration written", f"configuration {k}: {type(ex).__name__}: {ex}"))
+                        continue
+                a, b = dict(_leaves(cfg)), dict(_leaves(back))
+                for key in a:
+                    x, y = a[key], b.get(key, "<missing>")
+                    same = (abs(x - y) <= 8 * np.finfo(float).eps * abs(x)) if isinstance(x, float) and isinstance(y, float) else (x == y and type(x) is type(y))
+                    if not same:
+                        bad.append(("TOML round trip: create_toml -> config_from_toml returns the configuration written", f"configuration {k} ({mode}): {key} written {x!r}, read back {y!r}"))
+                        break
+    return n, bad
+
+
+def validate(seed, tier):
+    n, bad = _api_probe(seed)
+    return n, [{"obligation": ob, "verdict": "sat", "kind": "claim", "time_s": 0.0, "model": {"seed": seed}, "detail": det,
+                "reason": "assumption of the symbolic jobs about a layer they do not execute is false on the real public API (concrete probe)"} for ob, det in bad]
+
+
 def replay(v):
     """Through the public API: NssConfig validation, model_dump, create_toml / config_from_toml."""
     import os
@@ -275,6 +380,16 @@ def replay(v):
 
     job, ob = v.get("job", ""), v["obligation"]
     m = {k: x for k, x in (v.get("model") or {}).items() if x is not None}
+    if job == VALIDATE_JOB or "dimensional fields found" in ob:
+        _n, bad = _api_probe(int(m.get("seed", 0)))
+        if "dimensional fields found" in ob:  # a field lost its canonical validator: which values does the public API now mis-store?
+            if bad:
+                return {"reproduced": True, "key": bad[0][0], "detail": bad[0][1]}
+            return {"reproduced": False, "key": None, "detail": "public API stores all probe values correctly"}
+        for o, det in bad:
+            if o == ob:
+                return {"reproduced": True, "key": o, "detail": det}
+        return {"reproduced": False, "key": None, "detail": "probe passes"}
     if job == "radio frequency band":
         lo, hi = m.get("low_frequency", 100.0), m.get("high_frequency", 50.0)
         try:
